@@ -103,9 +103,9 @@ def isclose (a b : D) : Bool :=
     D.le diff (D.mulFin relTol b.val).abs || D.le diff (D.mulFin relTol a.val).abs
     || D.le diff (.fin 0)
 
-/-- helpers.py:298-301 `numeric_equal` -/
+/-- `Float.__eq__` (datatypes/numeric.py): equal, or `math.isclose(rel_tol=1e-7)` -/
 def numericEqual (a b : D) : Bool := D.eq a b || isclose a b
-/-- helpers.py:304-307 `numeric_not_equal` -/
+/-- `Float.__ne__` -/
 def numericNotEqual (a b : D) : Bool := if D.eq a b then false else !isclose a b
 
 /-! ## 2. atoms, items, modes -/
@@ -355,13 +355,15 @@ def ncName (s : Str) : NcName :=
   | [] => .invalid
   | c :: rest => if ncStart c && rest.all ncChar then .valid v else .invalid
 
-/-- `QName.make(str)` with no namespaces (qname.py:31-50, 71-77): a prefixed name → KeyError
-(`namespaces[prefix]`), a valid NCName → QName(None, name), anything else → ValueError -/
+/-- `QName.make(str)` (qname.py `make`, `__init__`): a valid NCName → QName(None, name) (no default
+namespace in the harness' parsers); a prefixed name depends on the namespaces at hand (`namespaces[prefix]`:
+the parser's, or none for an UntypedAtomic built without parser → KeyError): not modelled; anything
+else → ValueError -/
 def strToQName (s : Str) : Except PyR (Str × Str × Str) :=
   match ncName s with
   | .valid v => .ok ([], [], v)
   | .invalid => .error .valueErr
-  | .prefixed => .error (.exc .keyError)
+  | .prefixed => .error .unsupported
   | .unsupported => .error .unsupported
 
 /-- strings of the fragment that are certainly not date/time/duration lexicals (no 'P', ':', 'T',
@@ -711,16 +713,32 @@ def categoryOK (op : Op) (a b : Atom) : Bool :=
     decide (cmpCategory a = cmpCategory b) && decide (kindName a = kindName b) &&
     !(a.isDur && op.isOrd && !(match a, b with | .ymd _, .ymd _ => true | .dtd _, .dtd _ => true | _, _ => false))
 
-/-- the `match op1` part of one pair of base.py:557-588: the isinstance-ordered dispatch; returns the
-(possibly converted) pair, or TypeError -/
-def iterMatch (a b : Atom) : Except PyR (Atom × Atom) :=
+/-- `QName.make(untyped, parser=self.parser)` of a general comparison (qname.py `make`): the 2.0
+parsers refuse an UntypedAtomic argument (TypeError); a 3.x parser casts its string -/
+def qnMake (m : Mode) (s : Str) : Except PyR Atom :=
+  if m = .v31 then
+    match strToQName s with
+    | .ok (ns, pre, loc) => .ok (.qn ns pre loc)
+    | .error e => .error e
+  else .error .typeErr
+
+/-- the `match op1` part of one pair of base.py `iter_comparison_data`: the isinstance-ordered dispatch;
+returns the (possibly converted) pair, or the exception of a conversion / TypeError -/
+def iterMatch (m : Mode) (a b : Atom) : Except PyR (Atom × Atom) :=
   match a with
-  | .str _ | .uri _ => if isStrLike3 b then .ok (a, b) else .error .typeErr
+  | .str _ => if isStrLike3 b then .ok (a, b) else .error .typeErr
+  | .uri _ =>
+    match b with
+    | .ua t =>                                             -- yield op1, AnyURI(op2.value)
+      match strToUri t with
+      | .ok u => .ok (a, .uri u)
+      | .error e => .error e
+    | _ => if isStrLike3 b then .ok (a, b) else .error .typeErr
   | .bool _ =>
     if isStr b || isInteger b || isQN b || isUri b then .error .typeErr else .ok (a, b)
   | .int v =>
     match b with
-    | .dbl _ | .flt _ => .ok (.dbl (toD64 v), b)          -- yield get_double(op1), op2
+    | .dbl _ | .flt _ | .ua _ => .ok (.dbl (toD64 v), b)   -- yield get_double(op1), op2
     | _ => if isStr b || isQN b || isUri b || isBoolA b then .error .typeErr else .ok (a, b)
   | .dbl _ | .flt _ =>
     match b with
@@ -733,17 +751,26 @@ def iterMatch (a b : Atom) : Except PyR (Atom × Atom) :=
     | _ => if isStr b || isQN b || isUri b || isBoolA b then .error .typeErr else .ok (a, b)
   | .qn .. =>
     match b with
-    | .qn .. | .ua _ => .ok (a, b)
+    | .qn .. => .ok (a, b)
+    | .ua t =>                                             -- yield op1, type(op1).make(op2, parser)
+      match qnMake m t with
+      | .ok q => .ok (a, q)
+      | .error e => .error e
     | _ => .error .typeErr
   | .ua s =>
     match b with
     | .ua t => .ok (.str s, .str t)      -- both untyped: `yield str(op1), str(op2)`
+    | .int v => .ok (a, .dbl (toD64 v))  -- yield op1, get_double(op2)
+    | .qn .. =>                          -- yield type(op2).make(op1, parser), op2
+      match qnMake m s with
+      | .ok q => .ok (q, b)
+      | .error e => .error e
     | _ => .ok (a, b)
   | _ => .ok (a, b)
 
 /-- one pair of iter_comparison_data: the dispatch, then the comparability check -/
-def iterCheck (op : Op) (a b : Atom) : Except PyR (Atom × Atom) :=
-  match iterMatch a b with
+def iterCheck (m : Mode) (op : Op) (a b : Atom) : Except PyR (Atom × Atom) :=
+  match iterMatch m a b with
   | .error e => .error e
   | .ok p => if categoryOK op a b then .ok p else .error .typeErr
 
@@ -758,7 +785,7 @@ def fillPair (itz : Option Int) (a b : Atom) : Atom × Atom :=
 
 /-- the comparison of one generated pair in the non-compatibility loop -/
 def pairGeneral (m : Mode) (op : Op) (a b : Atom) : R :=
-  match iterCheck op a b with
+  match iterCheck m op a b with
   | .error e => liftPy e
   | .ok (x, y) => liftPy (pyOp m op x y)
 
@@ -896,33 +923,22 @@ def isNumCls : Atom → Bool | .int _ => true | .dec _ => true | .dbl _ => true 
 into `str` by get_atomized_operand) -/
 def valuePair (m : Mode) (op : Op) (a b : Atom) : R :=
   let fin (x y : Atom) : R := liftPy (pyOp m op x y)
-  let viaDoubleProxy : Option R :=
-    match a, b with
-    | .dbl x, .dbl y =>
-      (match op with
-       | .eq => some (.ok (numericEqual x y))
-       | .ne => some (.ok (numericNotEqual x y))
-       | _ => if numericEqual x y then some (.ok (op = .le || op = .ge)) else none)
-    | _, _ => none
-  match viaDoubleProxy with
-  | some r => r
-  | none =>
-    if a.cls = b.cls && a.cls ≠ .dur then fin a b
-    else if a.isFloatCls && b.isFloatCls then fin a b
-    else if isBoolA a || isBoolA b then .error .XPTY0004
-    else if isIntDec a && isIntDec b then fin a b
-    else if isStrLike3 a && isStrLike3 b then fin a b
-    else if isNumCls a && isNumCls b then
-      (if a.isFloatCls then
-        match getDouble b with
-        | .ok b' => fin a b'
-        | .error e => liftPy e
-      else
-        match getDouble a with
-        | .ok a' => fin a' b
-        | .error e => liftPy e)
-    else if a.isDur && b.isDur && (op = .eq || op = .ne) then fin a b
-    else .error .XPTY0004
+  if a.cls = b.cls && a.cls ≠ .dur then fin a b
+  else if a.isFloatCls && b.isFloatCls then fin a b
+  else if isBoolA a || isBoolA b then .error .XPTY0004
+  else if isIntDec a && isIntDec b then fin a b
+  else if isStrLike3 a && isStrLike3 b then fin a b
+  else if isNumCls a && isNumCls b then
+    (if a.isFloatCls then
+      match getDouble b with
+      | .ok b' => fin a b'
+      | .error e => liftPy e
+    else
+      match getDouble a with
+      | .ok a' => fin a' b
+      | .error e => liftPy e)
+  else if a.isDur && b.isDur && (op = .eq || op = .ne) then fin a b
+  else .error .XPTY0004
 
 /-- value comparison of two atoms under implicit timezone `itz`
 (`operands[:] = self.implicit_timezone_operands(context, *operands)` before the operator) -/
